@@ -699,7 +699,7 @@ class StyleProperties:
 
     @classmethod
     def from_model(cls, xml_element, model_value: float):
-      xml_element.set(f"{{{cls.ns}}}{cls.local_name}", f"{model_value}%")
+      xml_element.set(f"{{{cls.ns}}}{cls.local_name}", f"{utils.format_number(model_value)}%")
 
 
   class ShowBackground(StyleProperty):
